@@ -25,7 +25,7 @@ STRATA = ["flat", "threshold", "boosted", "collinear", "heavy"]
 
 
 def plan(tier, seed):
-    reps = 1 if tier == "quick" else 6
+    reps = 1 if tier == "quick" else 100
     cases = []
     for rep in range(reps):
         for mc in MASS_CLASSES:
@@ -98,6 +98,25 @@ def _perturbed(vals, rng, rel=1e-12):
     return {k: v * (1 + rel * rng.normal(size=np.shape(v))) for k, v in vals.items()}
 
 
+def _well_inside(vals, rng):
+    """Boolean per event: the point (sigma1, sigma2, sigma3; masses) is a physical Dalitz point by a margin larger than the
+    rounding of the generated inputs: Kibble's phi < 0 for the values as given and under three relative 1e-9 perturbations.
+    Events failing this are within input noise of the boundary (an invariant mass computed from boosted four-momenta can come out
+    marginally beyond its threshold): whether they are physical at all is not decidable from the floats, so a NaN there is not
+    judged.  Anything well inside is judged, NaN included."""
+    def lam(x, y, z):
+        return x * x + y * y + z * z - 2 * x * y - 2 * y * z - 2 * z * x
+
+    def phi(v):
+        m0, m1, m2, m3 = (v["m_0"] ** 2, v["m_1"] ** 2, v["m_2"] ** 2, v["m_3"] ** 2)
+        s1, s2, s3 = v["m_23"] ** 2, v["m_13"] ** 2, v["m_12"] ** 2
+        return lam(lam(s2, m2, m0), lam(s3, m3, m0), lam(s1, m1, m0))
+    ok = phi(vals) < 0
+    for _ in range(3):
+        ok &= phi(_perturbed(vals, rng, rel=1e-9)) < 0
+    return ok
+
+
 def _sens(fn, entry, vals, n, rng, v0):
     """Empirical conditioning: max change of the output under three 1e-12 relative input perturbations."""
     worst = np.zeros_like(v0) if not isinstance(v0, list) else [np.zeros(n) for _ in v0]
@@ -111,6 +130,13 @@ def _sens(fn, entry, vals, n, rng, v0):
             d = np.abs(v0 - v1)
             worst = np.maximum(worst, np.where(np.isfinite(d), d, np.inf))
     return worst
+
+
+def _acos_floor(v):
+    """Every angle of this module is acos(c): one rounding of c (|c| <= 1, ulp ~ 1e-16) moves the angle by ulp/sin(angle),
+    whatever the conditioning with respect to the inputs is (observed: angles of 5e-7 accurate to 1e-9 only)."""
+    with np.errstate(all="ignore"):
+        return 64 * EPS / np.maximum(np.abs(np.sin(v)), 1e-300)
 
 
 def _angle(a, b):
@@ -146,6 +172,9 @@ def run_case(case, rec, ctx):
     mass = lambda q: np.sqrt(np.maximum(mass2(q), 0))  # noqa: E731
     vals = {"m_0": np.full(n, M0), "m_1": np.full(n, ms[0]), "m_2": np.full(n, ms[1]), "m_3": np.full(n, ms[2]),
             "m_23": mass(p[2] + p[3]), "m_13": mass(p[1] + p[3]), "m_12": mass(p[1] + p[2])}
+    inside = _well_inside(vals, rng)
+    rec.stratum("dalitz_margin", "well_inside", int(inside.sum()))
+    rec.stratum("dalitz_margin", "within_input_noise_of_boundary", int((~inside).sum()))
     w0 = {"m0": M0, "m1": ms[0], "m2": ms[1], "m3": ms[2], "stratum": st}
     rec.sample(f"{mc}:{st}", {**w0, "m_23": vals["m_23"][0], "m_13": vals["m_13"][0], "m_12": vals["m_12"][0]})
 
@@ -166,7 +195,7 @@ def run_case(case, rec, ctx):
         rec.case(("hat", i, j, mc, st), i != j, family="theta_hat")
         cas = _cosargs(e, vals, n)
         for ca, cs in zip(cas, _sens(_cosargs, e, vals, n, rng, cas)):
-            ok = np.abs(ca) <= 1 + 1e-12 + 1e3 * cs
+            ok = (np.abs(ca) <= 1 + 1e-12 + 1e3 * cs) | ~inside
             k = int(np.argmin(ok))
             rec.check(bool(ok.all()), "acos_argument", f"theta_hat_{i}({j}): arccos argument {ca[k]!r} outside [-1,1]", wit(k), {**feats, "family": "theta_hat"})
         if i == j:
@@ -197,7 +226,7 @@ def run_case(case, rec, ctx):
         rec.case(("theta", i, j, mc, st), True, family="scattering")
         cas = _cosargs(e, vals, n)
         for ca, cs in zip(cas, _sens(_cosargs, e, vals, n, rng, cas)):
-            ok = np.abs(ca) <= 1 + 1e-12 + 1e3 * cs
+            ok = (np.abs(ca) <= 1 + 1e-12 + 1e3 * cs) | ~inside
             k = int(np.argmin(ok))
             rec.check(bool(ok.all()), "acos_argument", f"theta_{i}{j}: arccos argument {ca[k]!r} outside [-1,1]", wit(k), {**feats, "family": "scattering"})
         k_id = ({1, 2, 3} - {i, j}).pop()
@@ -221,7 +250,7 @@ def run_case(case, rec, ctx):
             s_ = sc[i, j] + sc[j, i]
             sin_ = np.minimum(np.abs(np.sin(sc[i, j])), np.abs(np.sin(sc[j, i])))
             e1, e2 = ctx["cache"]["theta", i, j], ctx["cache"]["theta", j, i]
-            tol = base + 1e3 * (_sens(_eval, e1, vals, n, rng, sc[i, j]) + _sens(_eval, e2, vals, n, rng, sc[j, i]))
+            tol = base + 1e3 * (_sens(_eval, e1, vals, n, rng, sc[i, j]) + _sens(_eval, e2, vals, n, rng, sc[j, i])) + _acos_floor(sc[i, j]) + _acos_floor(sc[j, i])
             ok = (np.abs(s_ - np.pi) <= tol) | (tol > 1e-3) | ~np.isfinite(s_)  # NaN: judged by acos_argument
             k = int(np.argmin(ok))
             rec.check(bool(ok.all()), "scattering_angle_sum", f"theta_{i}{j} + theta_{j}{i} = {s_[k]!r} != pi", wit(k), {**feats, "family": "scattering"})
@@ -240,14 +269,14 @@ def run_case(case, rec, ctx):
         rec.case(("zeta", i, j, k3, mc, st), not (j == k3), family="zeta")
         cas = _cosargs(e, vals, n)
         for ca, cs in zip(cas, _sens(_cosargs, e, vals, n, rng, cas)):
-            ok = np.abs(ca) <= 1 + 1e-12 + 1e3 * cs
+            ok = (np.abs(ca) <= 1 + 1e-12 + 1e3 * cs) | ~inside
             kk = int(np.argmin(ok))
             rec.check(bool(ok.all()), "acos_argument", f"zeta^{i}_{j}({k3}): arccos argument {ca[kk]!r} outside [-1,1]", wit(kk), {**feats, "family": "zeta"})
     rec.stratum("zeta_tuples_refused", len(refused))
 
     def close(ta, tb):
         a, b = z[ta], z[tb]
-        tol = base + 1e3 * (zs[ta] + zs[tb])
+        tol = base + 1e3 * (zs[ta] + zs[tb]) + _acos_floor(a) + _acos_floor(b)
         return (np.abs(a - b) <= tol) | (tol > 1e-3) | ~np.isfinite(a) | ~np.isfinite(b)
 
     for i in (1, 2, 3):
@@ -268,7 +297,7 @@ def run_case(case, rec, ctx):
             lhs, rhs = z[i, j, k3], z[i, j, i] + z[i, i, k3]
             # for a massless particle i all three angles are degenerate (0 or pi): compare modulo 2 pi
             d = np.abs(np.angle(np.exp(1j * (lhs - rhs))))
-            tol = base + 1e3 * (zs[i, j, k3] + zs[i, j, i] + zs[i, i, k3])
+            tol = base + 1e3 * (zs[i, j, k3] + zs[i, j, i] + zs[i, i, k3]) + _acos_floor(z[i, j, k3]) + _acos_floor(z[i, j, i]) + _acos_floor(z[i, i, k3])
             ok = (d <= tol) | (tol > 1e-3) | ~np.isfinite(d)
             kk = int(np.argmin(ok))
             rec.check(bool(ok.all()), "zeta_sum_rule", f"zeta^{i}_{j}({k3}) = {lhs[kk]!r} != zeta^{i}_{j}({i}) + zeta^{i}_{i}({k3}) = {rhs[kk]!r}",
